@@ -45,13 +45,15 @@ Definition deep_tree : tree :=
        [Node [60; 98; 62]%N 2 false [Node [120]%N 3 false []; Node [60; 99; 62]%N 4 false [Node [121]%N 5 false []]];
         Node [122]%N 6 false []].
 
-(* K_rootitems (pinned behaviour, fixed = false): root-view items carry value paths cut to the last index *)
-Lemma root_items_refuted :
+(* HISTORY of the defect K_rootitems (repaired in /repo by commit 0065353): the code as it was before the
+   fix (variant fixed = false of the model) cut root-view value paths to the last index.  The theorem about
+   the current code is root_items_repaired below. *)
+Lemma root_items_defect_history :
   exists t, max_degree t <= 28 /\
             st_items false (trie_of t) <> Ok (map (fun pt => (fst pt, pt)) (nodes t)).
 Proof. exists deep_tree. split; [vm_compute; lia|]. vm_compute. discriminate. Qed.
 
-(* ... and the proposed fix repairs this witness *)
+(* the old witness on the repaired code (also replayed on the implementation as a corpus case) *)
 Example root_items_fixed_witness :
   st_items true (trie_of deep_tree) = Ok (map (fun pt => (fst pt, pt)) (nodes deep_tree)).
 Proof. vm_compute. reflexivity. Qed.
@@ -177,3 +179,61 @@ Qed.
 
 Example trie_keys_nonvacuous : K_wide deep_tree = false /\ K_wide (wide_tree 28) = false /\ K_wide (wide_tree 29) = true.
 Proof. repeat split; reflexivity. Qed.
+
+(* ------------------------------------------------------------------ *)
+(* root view of the REPAIRED code (fixed = true = current /repo): items() = (path, (path, subtree)) *)
+(* ------------------------------------------------------------------ *)
+From ISLA Require Import TreeOpsFacts.
+
+Lemma key_eqb_eq a : forall b, key_eqb a b = true <-> a = b.
+Proof.
+  induction a as [|x a IH]; intros [|y b]; cbn [key_eqb]; split; intro H; try discriminate; try reflexivity.
+  - apply andb_true_iff in H as [H1 H2]. apply Nat.eqb_eq in H1. apply IH in H2. congruence.
+  - inversion H; subst. rewrite Nat.eqb_refl. cbn [andb]. apply IH. reflexivity.
+Qed.
+
+Lemma dt_get_entry : forall (l : list (path * tree)) x,
+  NoDup (map fst l) -> In x l -> dt_get (map entry l) (path_to_trie_key (fst x)) = Ok x.
+Proof.
+  induction l as [|h l IH]; intros x Hnd Hin; [contradiction|].
+  cbn [map entry dt_get]. fold (entry h). unfold entry at 1. cbn [fst].
+  destruct (key_eqb (path_to_trie_key (fst x)) (path_to_trie_key (fst h))) eqn:E.
+  - apply key_eqb_eq in E. apply key_inj in E. f_equal. symmetry.
+    eapply (NoDup_map_inj (@fst path tree)); eauto. left; reflexivity.
+  - destruct Hin as [->|Hin].
+    + assert (key_eqb (path_to_trie_key (fst x)) (path_to_trie_key (fst x)) = true) by (apply key_eqb_eq; reflexivity).
+      congruence.
+    + cbn [map] in Hnd. inversion Hnd; subst. apply IH; assumption.
+Qed.
+
+Lemma suffixes_all (l : list (path * tree)) :
+  dt_suffixes (map entry l) [] = map (fun pt => path_to_trie_key (fst pt)) l.
+Proof. induction l as [|h l IH]; [reflexivity|]. cbn [map entry dt_suffixes strip_prefix fst]. rewrite IH. reflexivity. Qed.
+
+Lemma res_all_ok {A B} (F : A -> res B) (G : A -> B) l :
+  (forall x, In x l -> F x = Ok (G x)) -> res_all (map F l) = Ok (map G l).
+Proof.
+  induction l as [|x l IH]; intro H; [reflexivity|]. cbn [map res_all].
+  rewrite (H x (or_introl eq_refl)). rewrite IH; [reflexivity|]. intros y Hy. apply H. right. assumption.
+Qed.
+
+(* repaired code, trees without a node of more than 28 children: the root view lists every node with
+   its full path as key AND as value path *)
+Theorem root_items_repaired t : K_wide t = false ->
+  st_items true (trie_of t) = Ok (map (fun pt => (fst pt, pt)) (nodes t)).
+Proof.
+  intro Hk. unfold st_items. rewrite trie_contents, all_storable by assumption.
+  cbn [trie_of st_root app]. rewrite suffixes_all, map_map.
+  apply res_all_ok. intros x Hx.
+  rewrite dt_get_entry; [|rewrite <- positions_nodes; apply positions_NoDup|assumption].
+  cbn [cut_value_path]. rewrite key_body_1, key_body_key. destruct x; reflexivity.
+Qed.
+
+Theorem root_values_repaired t : K_wide t = false -> st_values true (trie_of t) = Ok (nodes t).
+Proof.
+  intro Hk. unfold st_values. rewrite trie_contents, all_storable by assumption.
+  cbn [trie_of st_root app]. rewrite suffixes_all, map_map.
+  rewrite <- (map_id (nodes t)) at 2. apply res_all_ok. intros x Hx.
+  rewrite dt_get_entry; [|rewrite <- positions_nodes; apply positions_NoDup|assumption].
+  cbn [cut_value_path]. destruct x; reflexivity.
+Qed.
